@@ -206,7 +206,7 @@ func init() {
 		Prop: "C04", Name: "convert", Quick: 60000, Thorough: 600000, Shards: 4,
 		Rule: "(value, target type) pair as in C08 (target = the value's type edited 1..3 times, unrelated, or the same), values with nulls and unknowns at any depth, then 1..3 mark placements at any depth; non-trivial = the unmarked conversion succeeded and (a mark is nested or >= 2 distinct marks)",
 		Gen: func(t *rapid.T) ConvIn {
-			cs := convgen.Pair(convgen.Opts{Val: gen.ValOpts{Null: true, Unknown: true, Simple: true}}).Draw(t, "case")
+			cs := convgen.Pair(convgen.Opts{Val: gen.ValOpts{Null: true, Unknown: true, Simple: true, Long: 8}}).Draw(t, "case")
 			v, labels := gen.PlaceMarks(t, cs.V, false)
 			cs.V = v
 			return ConvIn{C: cs, Places: labels}
@@ -259,6 +259,19 @@ func init() {
 			}
 			if f := memberInvention(marked, r1.val, ""); f != nil {
 				return f
+			}
+			// conversions between sequence kinds (list, set, tuple) and from map to
+			// map keep every member (a set coalesces equal members and takes over
+			// their marks, as the set constructor does): no mark at any depth may
+			// get lost. Object types (in the value or the target) are left out: such a conversion may drop attributes or keys.
+			if !typeHasObject(in.C.V.T) && !typeHasObject(in.C.Target) && keepsMembers(in.C.V.T, in.C.Target) {
+				have := deepMarks(r1.val)
+				for m := range all {
+					if !have[m] {
+						return facet.Failf("mark-lost-nested", "Convert(%#v, %s) = %#v lost mark %q, carried by a member of the converted value", marked, in.C.Target, r1.val, m)
+					}
+				}
+				c.Label("nested-marks-kept")
 			}
 			return nil
 		},
@@ -342,7 +355,7 @@ type ReuseIn struct {
 }
 
 func genReuse(t *rapid.T) ReuseIn {
-	cs := convgen.Pair(convgen.Opts{Val: gen.ValOpts{Null: true, Unknown: true, Simple: true}}).Draw(t, "case")
+	cs := convgen.Pair(convgen.Opts{Val: gen.ValOpts{Null: true, Unknown: true, Simple: true, Long: 8}}).Draw(t, "case")
 	in := ReuseIn{S: cs.V.StripMarks().Retype().T, Target: cs.Target, Unsafe: rapid.IntRange(0, 3).Draw(t, "unsafe") != 0}
 	n := rapid.IntRange(2, 4).Draw(t, "nvals")
 	for i := 0; i < n; i++ {
@@ -442,4 +455,26 @@ func checkReuse(c *facet.Ctx, in ReuseIn) error {
 		prevMarks = marks
 	}
 	return nil
+}
+
+func typeHasObject(t spec.T) bool {
+	switch t.K {
+	case spec.KObject:
+		return true
+	case spec.KList, spec.KSet, spec.KMap:
+		return typeHasObject(*t.E)
+	case spec.KTuple:
+		for _, e := range t.Elems {
+			if typeHasObject(e) {
+				return true
+			}
+		}
+	}
+	return false
+}
+
+// keepsMembers: the conversion is between sequence kinds or from map to map.
+func keepsMembers(from, to spec.T) bool {
+	seq := func(k string) bool { return k == spec.KList || k == spec.KSet || k == spec.KTuple }
+	return (seq(from.K) && seq(to.K)) || (from.K == spec.KMap && to.K == spec.KMap)
 }
